@@ -13,16 +13,16 @@ import (
 )
 
 type FuncResult struct {
-	Fn        *ssa.Function
-	Key       string
-	Con       *Contract
-	VC        *VC
-	Err       string // translation failure (unsupported construct)
-	Obligs    []*Obligation
-	Inlined   []string
-	Assumed   []string
-	Havocked  []string
-	Notes     []string
+	Fn       *ssa.Function
+	Key      string
+	Con      *Contract
+	VC       *VC
+	Err      string // translation failure (unsupported construct)
+	Obligs   []*Obligation
+	Inlined  []string
+	Assumed  []string
+	Havocked []string
+	Notes    []string
 }
 
 func (p *Program) verifyFunction(fn *ssa.Function, con *Contract) (res *FuncResult) {
@@ -62,6 +62,9 @@ func (p *Program) verifyFunction(fn *ssa.Function, con *Contract) (res *FuncResu
 		v := Val{T: n, Typ: fv.Type()}
 		f.vals[fv] = v
 		f.params[fv.Name()] = v
+	}
+	for _, gname := range con.ReadsInit {
+		f.importGlobalInit(gname, st)
 	}
 	f.entry = st.clone()
 	// ghosts, lets (in source order)
@@ -260,6 +263,9 @@ func (f *Frame) checkFrame(e Exit, anchor string) {
 	for _, k := range comps {
 		now := e.St.heap[k]
 		init := q("H0 " + k)
+		if et, ok := f.entry.heap[k]; ok {
+			init = et
+		}
 		if now == init {
 			continue
 		}
@@ -293,4 +299,145 @@ func (f *Frame) exitSite(e Exit) string {
 		return fmt.Sprintf("%s.%d", shortFn(fn), k+1)
 	}
 	return fmt.Sprintf("L%d", pos.Line)
+}
+
+// verifyLemma: a statement over the contracts of several functions (each pure(...) call is replaced by
+// the callee's contract), e.g. the agreement of two token-type tables.
+func (p *Program) verifyLemma(l *LemmaDecl) (res *FuncResult) {
+	name := "lemma " + qualifierPath(l.PkgPath) + "." + l.Name
+	res = &FuncResult{Key: name, Con: &Contract{PkgPath: l.PkgPath, Key: name, Props: l.Props, File: l.File, Line: l.Line}}
+	vc := newVC(p, name)
+	vc.props = l.Props
+	res.VC = vc
+	defer func() {
+		if r := recover(); r != nil {
+			if u, ok := r.(unsupported); ok {
+				res.Err = u.why
+				res.Obligs = vc.obligs
+				return
+			}
+			panic(r)
+		}
+	}()
+	st := &State{cells: map[*ssa.Alloc]string{}, heap: map[string]string{}}
+	st.alloc = vc.declare("alloc0", "Int")
+	vc.assert(fmt.Sprintf("(>= %s 1)", st.alloc))
+	env := &Env{vc: vc, pkg: p.pkgs[l.PkgPath], st: st, old: st, vars: map[string]Val{}}
+	for _, prm := range l.Params {
+		srt := env.sortOfTypeString(prm.Type)
+		gt := env.goTypeOf(prm.Type)
+		n := vc.declare("p "+prm.Name, srt)
+		if gt != nil {
+			vc.assert(vc.typed(n, gt, 3))
+		}
+		env.vars[prm.Name] = Val{T: n, Typ: gt, Sort: srt}
+	}
+	for _, r := range l.Requires {
+		vc.assert(env.evalBool(r.E))
+	}
+	vo := &Obligation{Name: name + "#vacuity:requires", Kind: "vacuity", Fn: name, Goal: "false", NAssert: len(vc.asserts), Desc: "lemma hypotheses are satisfiable", ExpectSat: true, vc: vc, Props: l.Props, Pos: token.Position{Filename: l.File, Line: l.Line}}
+	vc.obligs = append(vc.obligs, vo)
+	for i, en := range l.Ensures {
+		vc.obligeLater("post", fmt.Sprintf("%s#post:%d", name, i+1), "true", env.evalBool(en.E), token.Position{Filename: l.File, Line: en.Line}, en.Src)
+	}
+	vc.flushDeferred()
+	res.Obligs = vc.obligs
+	for k := range vc.assumed {
+		res.Assumed = append(res.Assumed, k)
+	}
+	sort.Strings(res.Assumed)
+	return res
+}
+
+// importGlobalInit: the value a package-level variable receives from its initialiser is part of the entry
+// state, provided the variable (and what it refers to) is never written outside the package initialiser.
+// The initialiser's instructions that build the value (backward slice of the store to the variable) are
+// executed symbolically on the entry state.
+func (f *Frame) importGlobalInit(name string, st *State) {
+	vc := f.vc
+	pkg := f.fn.Pkg
+	g, ok := pkg.Members[name].(*ssa.Global)
+	if !ok {
+		unsup("reads_init: %s is not a package-level variable of %s", name, pkg.Pkg.Path())
+	}
+	if why := vc.prog.globalWrittenOutsideInit(g); why != "" {
+		unsup("reads_init %s: the variable may be written after initialisation (%s)", name, why)
+	}
+	init := pkg.Func("init")
+	if init == nil {
+		unsup("reads_init: package has no initialiser")
+	}
+	// backward slice
+	inSlice := map[ssa.Instruction]bool{}
+	vals := map[ssa.Value]bool{}
+	var addVal func(v ssa.Value)
+	addVal = func(v ssa.Value) {
+		if v == nil || vals[v] {
+			return
+		}
+		vals[v] = true
+		if in, ok := v.(ssa.Instruction); ok && in.Parent() == init {
+			inSlice[in] = true
+			var ops []*ssa.Value
+			for _, op := range in.Operands(ops) {
+				if op != nil && *op != nil {
+					addVal(*op)
+				}
+			}
+		}
+	}
+	rootOf := func(a ssa.Value) ssa.Value {
+		for {
+			switch t := a.(type) {
+			case *ssa.IndexAddr:
+				a = t.X
+			case *ssa.FieldAddr:
+				a = t.X
+			case *ssa.Slice:
+				a = t.X
+			default:
+				return a
+			}
+		}
+	}
+	for changed := true; changed; {
+		changed = false
+		n := len(inSlice)
+		for _, b := range init.Blocks {
+			for _, in := range b.Instrs {
+				switch t := in.(type) {
+				case *ssa.Store:
+					if t.Addr == ssa.Value(g) || vals[rootOf(t.Addr)] {
+						inSlice[in] = true
+						addVal(t.Addr)
+						addVal(t.Val)
+					}
+				case *ssa.MapUpdate:
+					if vals[t.Map] {
+						inSlice[in] = true
+						addVal(t.Key)
+						addVal(t.Value)
+					}
+				}
+			}
+		}
+		if len(inSlice) != n {
+			changed = true
+		}
+	}
+	sub := &Frame{vc: vc, fn: init, vals: map[ssa.Value]Val{}, params: map[string]Val{}, depth: 1, stack: []*ssa.Function{init}, spec: map[string]Val{},
+		edgeCnd: map[*ssa.BasicBlock]map[*ssa.BasicBlock]string{}, parent: nil, label: "init>"}
+	for _, b := range init.Blocks {
+		for _, in := range b.Instrs {
+			if !inSlice[in] {
+				continue
+			}
+			switch in.(type) {
+			case *ssa.Call, *ssa.If, *ssa.Jump, *ssa.Return, *ssa.Phi:
+				unsup("reads_init %s: initialiser is not a plain composite literal (%T)", name, in)
+			}
+			sub.instr(in, "true", st)
+		}
+	}
+	vc.note("entry state includes the initial value of " + qualifier(pkg.Pkg) + "." + name + " (executed from the package initialiser; checked never written elsewhere)")
 }
